@@ -10,7 +10,9 @@ holds the very same function objects; a static condition returns the same loss o
 constructors' default arguments are still empty.
 Correspondence: the same history through the Lean world model (drivers/C14.lean `run new`, exact
 rationals): every loss and the state of every user dict.
-Periodic conditions (left/right data on their own side, static repeatability) reuse the C04 machinery."""
+Periodic conditions (left/right data on their own side, static repeatability) and groups of PIDeepONet
+conditions that share one DeepONet and one function set over several iterations (alone vs company) reuse
+the C04 machinery."""
 import inspect
 import math
 from fractions import Fraction
@@ -41,6 +43,11 @@ def gen_history(ctx, rng):
             fn["wrap"] = vkind == "wrapped" or (vkind == "mixed" and rng.random() < 0.5)
             d.append(fn)
         dicts.append(d)
+    if nd == 2 and dicts[1] and rng.random() < 0.5:
+        # the SAME function object (plain callable or UserFunction object) sits in two different user dicts
+        src = dicts[1][0]
+        shared = dict(src, same_as=[1, 0])
+        dicts[2] = [shared] + [f for f in dicts[2] if f["name"] != src["name"]]
     nc = rng.randint(2, 4)
     conds = []
     for cid in range(1, nc + 1):
@@ -66,8 +73,18 @@ def gen_history(ctx, rng):
         if out_space[0][0] not in resid["params"]:
             resid["params"].insert(0, out_space[0][0])
         cls = rng.choice(["pinn", "pinn", "mean"])
-        conds.append(dict(cid=cid, dref=dref, space=sp, net=net, param=param, resid=resid, cls=cls,
-                          static=rng.random() < 0.6, n=rng.choice([1, 2, 3])))
+        c = dict(cid=cid, dref=dref, space=sp, net=net, param=param, resid=resid, cls=cls,
+                 static=rng.random() < 0.6, n=rng.choice([1, 2, 3]), share={})
+        if conds and rng.random() < 0.4:
+            # this condition is built from the very same OBJECTS as an earlier one: the model, the residual
+            # function, possibly the (non-static) sampler object — everything but its own static flag / draws
+            j = rng.choice(conds)
+            c.update(dref=j["dref"], space=j["space"], net=j["net"], param=j["param"], resid=j["resid"], n=j["n"])
+            c["share"] = dict(model=j["cid"], resid=j["cid"] if rng.random() < 0.7 else None)
+            if not j["static"] and rng.random() < 0.5:
+                c["static"] = False
+                c["share"]["sampler"] = j["cid"]
+        conds.append(c)
     # interleaving: constructions and evaluations of all conditions in random order (construct first per condition)
     pending = {c["cid"]: ["c"] + ["e"] * rng.randint(1, 3) for c in conds}
     ops = []
@@ -110,10 +127,17 @@ def run_history(case, only=None):
     sink = []
     pydicts, originals = [], []
     for d in case["dicts"]:
-        fns = {spec["name"]: build_fn(C, spec, sink) for spec in d}
+        fns = {}
+        for spec in d:
+            if spec.get("same_as"):
+                di, fi = spec["same_as"]
+                fns[spec["name"]] = pydicts[di][case["dicts"][di][fi]["name"]]      # the same object again
+            else:
+                fns[spec["name"]] = build_fn(C, spec, sink)
         pydicts.append(fns)
         originals.append(dict(fns))
     state = {}
+    objs = {}            # cid -> (model, residual function, inner sampler) for object sharing between conditions
     outs = []
     for op in case["ops"]:
         if only is not None and op["cid"] != only:
@@ -122,12 +146,14 @@ def run_history(case, only=None):
         fresh = prow(op["fresh"])
         try:
             if op["op"] == "c":
-                inner = NextSampler(c["space"], c["n"])
+                sh = {k: v for k, v in c.get("share", {}).items() if v in objs}     # (alone: nothing to share with)
+                inner = objs[sh["sampler"]][2] if "sampler" in sh else NextSampler(c["space"], c["n"])
                 inner.next_rows = fresh
                 sampler = inner.make_static() if c["static"] else inner
                 net = c["net"]
-                model = C["PolyModel"](net["in"], net["out"], [pe_from_json(b) for b in net["body"]])
-                resid = build_fn(C, c["resid"], sink)
+                model = objs[sh["model"]][0] if "model" in sh else C["PolyModel"](net["in"], net["out"], [pe_from_json(b) for b in net["body"]])
+                resid = objs[sh["resid"]][1] if sh.get("resid") else build_fn(C, c["resid"], sink)
+                objs[op["cid"]] = (model, resid, inner)
                 kw = {}
                 if c["dref"] != 0:
                     kw["data_functions"] = pydicts[c["dref"]]
@@ -203,6 +229,12 @@ def judge_history(rep, case, res, alone, reply):
         rep.count("history:dict-values=" + ("+".join(kinds) if kinds else "empty"))
         if len(shared.get(i, [])) >= 2 and kinds == ["UserFunction"]:
             rep.count("history:all-UserFunction-dict-shared")
+    if any(f.get("same_as") for d in case["dicts"] for f in d):
+        rep.count("history:same-function-object-in-two-dicts")
+    for c in case["conds"]:
+        for k, v in c.get("share", {}).items():
+            if v:
+                rep.count(f"history:shared-{k}-object")
     c04.count_shapes(rep, [c["resid"] for c in case["conds"]] + [f for d in case["dicts"] for f in d])
     # ---- the property on the implementation: alone vs company, dicts untouched, static repeatable
     for c in case["conds"]:
@@ -254,9 +286,29 @@ def judge_periodic(rep, case, res, replies):
             rep.fail(f"periodic condition with a static sampler returned different losses on repeated evaluation: {ls}", case)
 
 
+def judge_deeponet(rep, case, res, alone, replies):
+    """several PIDeepONet conditions on ONE DeepONet and ONE function set, all evaluated every iteration"""
+    c04.judge_don(rep, case, res, replies)
+    if res["errors"]:
+        return
+    for j in range(len(case["subs"])):
+        mine = [st["loss"] for st in res["steps"] if st["j"] == j]
+        al = [st["loss"] for st in alone[j]["steps"]]
+        if mine != al:
+            rep.fail(f"DeepONet condition {j} returns {mine} over the iterations in company (shared DeepONet and function set, "
+                     f"order of evaluation {case['steps']}) but {al} when it is the only condition", case,
+                     detail=dict(condition=j, company=mine, alone=al))
+
+
 def gen_cases(ctx):
     rng = ctx.rng
     cases = [gen_history(ctx, rng) for _ in range(ctx.scale(260, 2800))]
+    for _ in range(ctx.scale(40, 450)):
+        while True:
+            d = c04.gen_don(ctx, rng)
+            if len(d["subs"]) >= 2:
+                break
+        cases.append(d)
     for _ in range(ctx.scale(60, 650)):
         p = c04.gen_per(ctx, rng)
         p["calls"] = 2
@@ -270,26 +322,33 @@ def key_of(case):
     c = dict(case)
     if c["kind"] == "history":
         c["ops"] = [(o["op"], o["cid"]) for o in c["ops"]]
-    else:
-        c.pop("sets", None)
-    return c
+        return c
+    return c04.key_of(c)
 
 
 def run(ctx, rep, cases=None):
     rep.rule = ("seeded histories: 1-2 user dicts of data functions (+ the default argument), 2-4 PINN/mean conditions with own "
                 "static or non-static samplers and permuted variable orders, interleaved construct/evaluate operations; plus "
-                "periodic conditions (static and non-static) evaluated twice; non-trivial = a user dict (or the default) is "
+                "periodic conditions (static and non-static) evaluated twice; 2-3 PIDeepONet conditions sharing one DeepONet "
+                "and one function set over 2-3 iterations in changing order; non-trivial = a user dict (or the default) is "
                 "shared by >= 2 conditions; distinct = distinct history structure (point values ignored)")
     cases = cases if cases is not None else gen_cases(ctx)
     hist = [c for c in cases if c["kind"] == "history"]
     pers = [c for c in cases if c["kind"] == "per"]
     results = [(run_history(c), {k["cid"]: run_history(c, only=k["cid"]) for k in c["conds"]}) for c in hist]
     pres = [c04.run_per(c) for c in pers]
+    dons = [c for c in cases if c["kind"] == "don"]
+    dres = [(c04.run_don(c), [c04.run_don(c, only=j) for j in range(len(c["subs"]))]) for c in dons]
     plines, owner = [], []
     for i, (c, r) in enumerate(zip(pers, pres)):
         for j, l in enumerate(c04.lines_per(c, r)):
             if l is not None:
                 owner.append((i, j))
+                plines.append(l)
+    for i, (c, (r, _)) in enumerate(zip(dons, dres)):
+        for j, l in enumerate(c04.lines_don(c, r)):
+            if l is not None:
+                owner.append((("don", i), j))
                 plines.append(l)
     try:
         replies = common.run_driver("C14", [line_history(c) for c in hist])
@@ -314,6 +373,10 @@ def run(ctx, rep, cases=None):
         rp = [per_case.get(i, {}).get(j) for j in range(c["calls"])]
         rep.case(key_of(c), True, sample=dict(case=key_of(c), losses=r.get("losses")), kind="periodic")
         judge_periodic(rep, c, r, rp)
+    for i, (c, (r, al)) in enumerate(zip(dons, dres)):
+        rp = [per_case.get(("don", i), {}).get(j) for j in range(len(c["steps"]))]
+        rep.case(key_of(c), True, sample=dict(case=key_of(c), losses=[st["loss"] for st in r["steps"]]), kind="deeponet")
+        judge_deeponet(rep, c, r, al, rp)
 
 
 def replay(ctx, obj):
